@@ -111,4 +111,69 @@ func init() {
 		"[other.(*Range) && a.Length == b.Length && a.Start == b.Start && a.Step != b.Step]  -> False, nil",
 		"[other.(*Range) && a.Length == b.Length && a.Start == b.Start && a.Step == b.Step]  -> True, nil",
 	}
+	// name lookup in a namespace block: locals, then globals, then builtins, NameError last [ceval.c]  []
+	pathSpec["vm|do_LOAD_NAME"] = []string{
+		"[!(ok)] vm.frame.Lookup(vm.frame.Code.Names[namei]); ExceptionNewf(py.NameError, nameErrorMsg, vm.frame.Code.Names[namei]) -> err!",
+		"[ok] vm.frame.Lookup(vm.frame.Code.Names[namei]) -> nil",
+	}
+	// global lookup: globals, then builtins, NameError last [ceval.c]  []
+	pathSpec["vm|do_LOAD_GLOBAL"] = []string{
+		"[!(ok)] vm.frame.LookupGlobal(vm.frame.Code.Names[namei]); ExceptionNewf(py.NameError, nameErrorMsg, vm.frame.Code.Names[namei]) -> err!",
+		"[ok] vm.frame.LookupGlobal(vm.frame.Code.Names[namei]) -> nil",
+	}
+	// class-body free variable: the class namespace first, then the cell of the enclosing function, unbound error last [ceval.c]  []
+	pathSpec["vm|do_LOAD_CLASSDEREF"] = []string{
+		"[!(has(vm.frame.Locals[name])) && res != nil] _var_name(vm, i); vm.frame.CellAndFreeVars[i].Get() -> nil",
+		"[!(has(vm.frame.Locals[name])) && res == nil] _var_name(vm, i); vm.frame.CellAndFreeVars[i].Get(); unboundDeref(vm, i) -> vm.unboundDeref#0",
+		"[has(vm.frame.Locals[name])] _var_name(vm, i) -> nil",
+	}
+	// free/cell variable read: the cell's content, unbound error when empty [ceval.c]  []
+	pathSpec["vm|do_LOAD_DEREF"] = []string{
+		"[res != nil] vm.frame.CellAndFreeVars[i].Get() -> nil",
+		"[res == nil] vm.frame.CellAndFreeVars[i].Get(); unboundDeref(vm, i) -> vm.unboundDeref#0",
+	}
+	// name store goes to the frame's locals [ceval.c]  []
+	pathSpec["vm|do_STORE_NAME"] = []string{
+		"[] vm.frame.Locals[vm.frame.Code.Names[namei]] = slot0 -> nil",
+	}
+	// name delete removes from the frame's locals, NameError when absent [ceval.c]  []
+	pathSpec["vm|do_DELETE_NAME"] = []string{
+		"[!(has(vm.frame.Locals[name]))] ExceptionNewf(py.NameError, nameErrorMsg, vm.frame.Code.Names[namei]) -> err!",
+		"[has(vm.frame.Locals[name])]  -> nil",
+	}
+	// global store goes to the frame's globals [ceval.c]  []
+	pathSpec["vm|do_STORE_GLOBAL"] = []string{
+		"[] vm.frame.Globals[vm.frame.Code.Names[namei]] = slot0 -> nil",
+	}
+	// global delete removes from the frame's globals, NameError when absent [ceval.c]  []
+	pathSpec["vm|do_DELETE_GLOBAL"] = []string{
+		"[!(has(vm.frame.Globals[name]))] ExceptionNewf(py.NameError, nameErrorMsg, vm.frame.Code.Names[namei]) -> err!",
+		"[has(vm.frame.Globals[name])]  -> nil",
+	}
+	// cell store sets the cell of slot i [ceval.c]  []
+	pathSpec["vm|do_STORE_DEREF"] = []string{
+		"[] vm.frame.CellAndFreeVars[i].Set(slot0) -> nil",
+	}
+	// cell delete empties the cell, unbound error when already empty [ceval.c]  []
+	pathSpec["vm|do_DELETE_DEREF"] = []string{
+		"[cell.Get() != nil] vm.frame.CellAndFreeVars[i].Get(); vm.frame.CellAndFreeVars[i].Delete() -> nil",
+		"[cell.Get() == nil] vm.frame.CellAndFreeVars[i].Get(); unboundDeref(vm, i) -> vm.unboundDeref#0",
+	}
+	// pushes the cell object of slot i itself [ceval.c]  []
+	pathSpec["vm|do_LOAD_CLOSURE"] = []string{
+		"[]  -> nil",
+	}
+	// LOAD_NAME order: the frame's locals, then its globals, then the builtins [ceval.c LOAD_NAME]  []
+	pathSpec["py|Frame.Lookup"] = []string{
+		"[!(has(f.Locals[name])) && !(has(f.Globals[name])) && !(has(f.Builtins[name]))]  -> nil, false",
+		"[!(has(f.Locals[name])) && !(has(f.Globals[name])) && has(f.Builtins[name])] ",
+		"[!(has(f.Locals[name])) && has(f.Globals[name])] ",
+		"[has(f.Locals[name])] ",
+	}
+	// LOAD_GLOBAL order: the frame's globals, then the builtins [ceval.c LOAD_GLOBAL]  []
+	pathSpec["py|Frame.LookupGlobal"] = []string{
+		"[!(has(f.Globals[name])) && !(has(f.Builtins[name]))]  -> nil, false",
+		"[!(has(f.Globals[name])) && has(f.Builtins[name])] ",
+		"[has(f.Globals[name])] ",
+	}
 }
